@@ -623,7 +623,7 @@ func c09Run(r *mc.Run) {
 		bits = []uint{0, 1, 2, 3, 4, 5, 6, 7}
 	}
 	r.Level = "fault_enumeration"
-	r.Rule = "(a) 6 base messages x 3 layers (base64 text, DEFLATE stream, XML bytes): every truncation offset, every single-bit flip (quick: bits 0 and 7 of every byte; thorough: all 8), 12 byte substitutions at every position, each fed to the entry points of its kind under 3 configurations (truncations: to all 6 entry points); (b) unsigned Response + EncryptedAssertion: 8 algorithm identifiers x every ciphertext length 0..64 x content families (zeros, 0xff, valid-truncated, every final plaintext byte 0..255, every position x value of the last non-zero byte of the final block, all-zero final block) with deviation-bounded key-transport / digest / key length / placement / recipient variants, through ValidateEncodedResponse and through DecryptBytes/Decrypt directly; a valid EncryptedAssertion at 11 placements (direct child, twice, 4 wrappers, nested elements named like the root, inside an assertion, inside another EncryptedAssertion) under signed and unsigned roots; direct DecryptSymmetricKey/DecryptBytes calls with odd certificates; (c) structure extremes in a child process. non-trivial = the input passed base64 decoding (reached XML/DEFLATE processing) or reached the decryption routine; distinct = distinct input"
+	r.Rule = "(a) 6 base messages x 3 layers (base64 text, DEFLATE stream, XML bytes): every truncation offset, every single-bit flip (quick: bits 0 and 7 of every byte; thorough: all 8), 12 byte substitutions at every position, each fed to the entry points of its kind under 3 configurations (truncations: to all 6 entry points); (b) unsigned Response + EncryptedAssertion: 8 algorithm identifiers x every ciphertext length 0..64 x content families (zeros, 0xff, valid-truncated, every final plaintext byte 0..255, every position x value of the last non-zero byte of the final block, all-zero final block) with deviation-bounded key-transport / digest / key length / placement / recipient variants, through ValidateEncodedResponse and through DecryptBytes/Decrypt directly; every document one attacker edit (C01's operator menu) away from 8 genuine messages; a valid EncryptedAssertion at 11 placements (direct child, twice, 4 wrappers, nested elements named like the root, inside an assertion, inside another EncryptedAssertion) under signed and unsigned roots; direct DecryptSymmetricKey/DecryptBytes calls with odd certificates; (c) structure extremes in a child process. non-trivial = the input passed base64 decoding (reached XML/DEFLATE processing) or reached the decryption routine; distinct = distinct input"
 	r.Assume("a Go panic in the callee is observable by recover(); fatal runtime errors are observed as death of a child process")
 
 	// (a)
@@ -772,6 +772,44 @@ func c09Run(r *mc.Run) {
 			}
 		}
 		_ = pi
+	}
+
+	// (b'') every document one attacker edit away from a genuine message (the operator menu of
+	// the attacker transition system, C01), through every entry point
+	{
+		w := theAttWorld()
+		var states []attState
+		for _, m := range w.msgs {
+			st := attState{XML: m.XML, Path: m.Name}
+			states = append(states, st)
+			for _, n := range successors(st, true) {
+				states = append(states, n.(attState))
+			}
+		}
+		r.Set("attacker_edit_states", len(states))
+		r.Par(len(states), func(i int) {
+			st := states[i]
+			in := st.Encoded()
+			for e := range c09Entries {
+				for cf := range c09Confs {
+					v, d := c09Call(e, cf, in)
+					r.Eval(1)
+					if v != "" {
+						r.Bucket("attacker-edit/VIOLATION")
+						op := st.Path
+						if k := strings.LastIndex(op, " > "); k >= 0 {
+							op = op[k+3:]
+						}
+						if k := strings.IndexAny(op, "[/="); k > 0 {
+							op = op[:k]
+						}
+						r.Violation(fmt.Sprintf("C09/%s/attacker-edit/%s/%s", c09Entries[e], op, v), st.Path+": "+d, c09Case{Family: "attacker-edit/" + op, Entry: e, Conf: cf, Input: in})
+					}
+				}
+			}
+			r.Bucket("attacker-edit/total")
+			r.Nontrivial(in)
+		})
 	}
 
 	// direct calls
